@@ -661,7 +661,10 @@ class Compare:
         if type(a) is not type(b):
             return self.diff(path, 'type %s vs %s' % (type(a).__name__, type(b).__name__), owner=owner)
         if isinstance(a, tuple):
-            if self.identity(a, b, path, False, owner):
+            # (a tuple held as attribute of an instance -- `pipe.subshape` shared with `pipe.conj()` -- is an immutable
+            #  value: like numpy buffers inside instances its identity is not compared; cycles need a mutable object,
+            #  which is guarded below)
+            if not in_inst and self.identity(a, b, path, False, owner):
                 return
             if len(a) != len(b):
                 return self.diff(path, 'len %d vs %d' % (len(a), len(b)), owner=owner)
